@@ -255,7 +255,7 @@ CHECKS = {
                      "a malformed remote address counts as not loopback"],
         units=[
             P("TestC19_DecisionTable"),
-            P("TestC19_SwitchesFromJSON"),
+            P("TestC19_SwitchesFromJSON"), P("TestC19_PasswordFromJSON"),
             P("TestC19_ConcurrentLogins"),
             P("TestC19_Binary"),
         ],
